@@ -1435,9 +1435,16 @@ def gen_unit_change_case(rnd, tmax=8):
 
 
 THEOREMS_C12_CHP = [
-    ('EAO.Properties.C12CHP', 'EAO.C12.unit_change_chp', 'CHP / Plant: grid with every dt multiplied by k > 0, rates per time (ramp, last dispatch, running costs, consumption if on, raw min_cap) divided by k, durations (min runtime / downtime, time already running / off) multiplied by k, unit length u\' k = u: buildCHP returns the SAME problem (same error otherwise); hypotheses: running costs and consumption-if-on not given as price keys, and the raw-value constructor guard stable (known finding F-06d)'),
-    ('EAO.Properties.C12CHP', 'EAO.C12.unit_change_chp_steps', 'the step counts ceil(duration * unit / step) of a duration multiplied by k under the unit divided by k are equal'),
-    ('EAO.Properties.C12CHP', 'EAO.C12.unit_change_min_load', 'the same for the minimum-load-cost extension (threshold and costs divided by k, not price keys)'),
+    ('EAO.Properties.C12CHP', 'EAO.C12.unit_change_chp', "CHP / Plant: grid with every dt multiplied by k > 0, rates per time (ramp, last dispatch, running costs, consumption if on, raw min_cap) divided by k, durations (min runtime / downtime, time already running / off) multiplied by k, unit length u' k = u: buildCHP returns the SAME problem (same error otherwise); hypotheses: running costs and consumption-if-on not given as price keys, and the raw-value constructor guard stable (known finding F-06d)"),
+    ('EAO.Properties.C12CHP', 'EAO.C12.unit_change_chp_steps', 'the step counts ceil(duration * unit / step) of a duration multiplied by k under the unit divided by k are equal (the rational under the ceiling is the same)'),
+    ('EAO.Properties.C12CHP', 'EAO.C12.unit_change_chp_costs_only', 'the same for the costs_only cost vector'),
+    ('EAO.Properties.C12CHP', 'EAO.C12.unit_change_chp_profiles', 'the same with start / shutdown ramp profiles (bounds divided by k, ramp_freq kept; heat profiles only together with the power profile of the same ramp)'),
+    ('EAO.Properties.C12CHP', 'EAO.C12.unit_change_chp_any', 'the dispatching builder (with or without profiles)'),
+    ('EAO.Properties.C12CHP', 'EAO.C12.unit_change_profile_bounds', '_convert_ramp (identity / interpolation / averaging) is linear: converted bounds times step/unit are the same after rescaling'),
+    ('EAO.Properties.C12CHP', 'EAO.C12.unit_change_min_load', 'the minimum-load-cost extension (threshold and costs divided by k, not price keys)'),
+    ('EAO.Properties.C12CHP', 'EAO.C12.unit_change_min_load_costs_only', 'its costs_only vector'),
+    ('EAO.Properties.C12CHP', 'EAO.C12.unit_change_chp_chain', 'the whole chain Contract -> CHP (with or without profiles) -> min-load returns the same problem (capacities not price keys, as in unit_change for contracts)'),
+    ('EAO.Properties.C12CHP', 'EAO.C12.guard_not_unit_invariant', 'machine-checked instance of the C12 consequence of known finding F-06d: min_downtime 0.5 h without declared history builds, re-expressed as 30 min the constructor asserts'),
 ]
 
 
